@@ -40,7 +40,7 @@ class Gen:
         self.n = 0
         self.ops = []
         self.pool = {k: [] for k in ('type', 'expr', 'name', 'ident', 'str', 'prod', 'sum', 'fun', 'region', 'class',
-                                     'enum', 'module', 'decl', 'unit', 'symF')}
+                                     'enum', 'module', 'decl', 'unit', 'symF', 'forall')}
         self.wordlen = {}
         self.declkind = {}          # (region, name) -> op kind
         self.kinds = {}
@@ -123,12 +123,14 @@ class Gen:
             return E(op, [owner, thing], ['decl', 'expr']) if self.attachable(owner, thing) else None
 
         def declare():
-            reg, nm = pk('region'), pk('name')              # a name keeps one declaration kind per region
-            kind = self.declkind.get((reg, nm))
+            reg, nm = pk('region'), pk('name')              # a name keeps one declaration kind per region -- except that functions,
+            kind = self.declkind.get((reg, nm))             # primary and secondary templates share names (`void f(int); template<class T> void f(T);`)
             if kind is None:
-                kind = rng.choice(DECL_KINDS + (['fundecl'] if P['fun'] else []))
+                kind = rng.choice(DECL_KINDS + (['fundecl'] if P['fun'] else []) + (['ptmpl'] if P.get('forall') else []))
                 self.declkind[(reg, nm)] = kind
-            ty = pk('fun') if kind == 'fundecl' else pk('type')
+            if kind in ('fundecl', 'ptmpl', 'stmpl'):
+                kind = rng.choice([k for k in ('fundecl', 'ptmpl', 'stmpl', 'stmpl') if (k == 'fundecl' and P['fun']) or (k != 'fundecl' and P.get('forall'))] or [kind])
+            ty = pk('fun') if kind == 'fundecl' else pk('forall') if kind in ('ptmpl', 'stmpl') else pk('type')
             if not self.attachable(reg, nm, ty):
                 return None
             return E(kind, [reg, nm, ty], ['decl', 'expr'])
@@ -148,7 +150,7 @@ class Gen:
             (4, P['prod'], lambda: E('u', ['functions', pk('prod'), pk('type'), pk('symF') if rng.random() < 0.6 else pk('expr')],
                                      ['type', 'expr', 'fun'])),
             (1, P['prod'] and P['sum'], lambda: E('u', ['tors', pk('prod'), pk('sum')], ['type', 'expr'])),
-            (1, P['prod'], lambda: E('u', ['foralls', pk('prod'), pk('type')], ['type', 'expr'])),
+            (2, P['prod'], lambda: E('u', ['foralls', pk('prod'), pk('type')], ['type', 'expr', 'forall'])),
             (2, True, lambda: E('u', ['arrays', pk('type'), pk('expr')], ['type', 'expr'])),
             (2, True, lambda: E('u', ['member_ptrs', pk('type'), pk('type')], ['type', 'expr'])),
             (2, True, lambda: E('u', ['type_refs', pk('expr')], ['type', 'expr'])),
